@@ -13,4 +13,11 @@ TEXT = {
         design_ref="DESIGN.md section 3, C18",
         level_note=NOTE_COMMON,
         technique="runtime oracle over exhaustively enumerated inputs (ASan+UBSan build)"),
+    "C19": dict(
+        level_text="Exhaustive sweep of all 2^31-2 generator states and all library seed forms against an independent 64-bit reference of the "
+                   "Park-Miller recurrence (plain build; subsampled again under ASan+UBSan), orbit length, draw ranges for six scalar types, "
+                   "plus a purity monitor (thread / process / heap-history digests, ltrace+strace showing no RNG, clock or entropy call).",
+        design_ref="DESIGN.md section 3, C19",
+        level_note=NOTE_COMMON + " Platform independence is only observed on this machine.",
+        technique="exhaustive runtime comparison with a reference recurrence + ltrace/strace purity monitor"),
 }
